@@ -3,22 +3,22 @@ CONSTANTS
   TMax = 10
   EMax = 7
   OMax = 5
-  UAll = 6
+  UAll = 5
+  PMax = 3
+  VMax = 8
   IMax = 5
-  NMax = 300
+  NMax = 150
   LMax = 1
   HMax = 3
   BMax = 8
   SMax = 8
   Shard = 0
   NShards = 1
-INVARIANT RoundTrip
+INVARIANT PackLaws
 INVARIANT MaskIsMod
 INVARIANT Positional
-INVARIANT MirrorPack
-INVARIANT SizePads
 INVARIANT IntoFrame
-INVARIANT Repack
+INVARIANT UnpackLaws
 INVARIANT BooleanRender
 INVARIANT BytifyInverse
 INVARIANT UnbytifyInverse
